@@ -19,6 +19,7 @@ pub fn run(rep: &Report) -> u64 {
 }
 
 pub fn explore(ex: &Ex) {
+    edited(ex);
     let d = ex.pick(1usize, 1, 2);
     ex.bound("c02", "deviations_max", json!(d));
     let mut contents = gen::header_contents();
@@ -76,6 +77,39 @@ pub fn explore(ex: &Ex) {
     });
 }
 
+/// Decode, edit the parsed view, keep the retained bytes: re-encoding and every structure still
+/// carry the received bytes.
+fn edited(ex: &Ex) {
+    use coset::CborSerializable;
+    let mut l = Local::default();
+    // all three structure families, full comparison (the expected protected slot is the wire bytes)
+    crate::spaces::c03::edited_after_decode(ex, "SME", &mut l);
+    // re-encoding
+    let edit = subject::c_header(&crate::spaces::c11::single_field_headers()[0]).unwrap();
+    for wire in [vec![], vec![0xa0u8], vec![0xa1, 0x01, 0x38, 0x06]] {
+        let pb = crate::spaces::wrap_bstr(&wire);
+        let bytes = [&[0x84u8][..], &pb, &[0xa0, 0x41, 0x70, 0x41, 0x73]].concat();
+        if let Ok(Ok(mut m)) = subject::catch(|| coset::CoseSign1::from_slice(&bytes)) {
+            m.protected.header = edit.clone();
+            l.state(1);
+            l.impl_checked += 1;
+            let out = subject::catch(|| m.clone().to_vec());
+            let slot = out.ok().and_then(|r| r.ok()).and_then(|o| crypto::slot_bytes(&o, &[0]));
+            if slot.as_deref() != Some(&wire[..]) {
+                l.viol(Viol {
+                    key: format!("{}:edited-value-reencoded-without-the-retained-bytes", ex.pid),
+                    space: "c02.edited".into(),
+                    case: format!("Sign1 received with protected bytes {} then header edited", hex(&wire)),
+                    direct: None,
+                    expected: hex(&wire),
+                    observed: format!("{:?}", slot.map(|s| hex(&s))),
+                });
+            }
+        }
+    }
+    ex.rep.merge(l);
+}
+
 /// Re-encoding carries the wire bytes; crypto structures carry them.
 fn reuse(ex: &Ex, cname: &str, ty: crate::refcose::Ty, bytes: &[u8], aads: &[&[u8]], l: &mut Local) {
     let case = format!("{} slice {}", crate::oracle::ty_name(ty), hex(bytes));
@@ -103,7 +137,7 @@ fn reuse(ex: &Ex, cname: &str, ty: crate::refcose::Ty, bytes: &[u8], aads: &[&[u
         }
         (o, _) => l.viol(mk("reencode-failed", "Ok".into(), o.brief())),
     }
-    let cx = Cx { pid: ex.pid, space: "c02", case: &case, exact: true, fams: "SME", slots_only: true };
+    let cx = Cx { pid: ex.pid, space: "c02", case: &case, exact: true, fams: "SME", slots_only: true, body_override: None };
     let detached: Vec<&[u8]> = vec![b"", b"y"];
     crypto::on_any(&cx, v.as_any(), aads, &detached, l);
 }
